@@ -132,3 +132,23 @@ Print Assumptions c04_tag_first_entry_last_partial_node_create_fixed.
 Theorem c04_cleanup_idempotent : forall n w, cleanup n (cleanup n w) = cleanup n w.
 Proof. exact cleanup_idempotent. Qed.
 Print Assumptions c04_cleanup_idempotent.
+
+(* ---- second crash: the cleaner itself dies behind ANY prefix of its removal list (order of the code:
+   port resources, registry entries, port tags, node entry, service, service tags, node details, token
+   last); a second, complete cleanup then yields exactly the result of one undisturbed cleanup. ---- *)
+Theorem c04_double_crash : forall n w k,
+  cleanup n (crash k (cleanup_steps n w) w) = cleanup n w.
+Proof. exact double_crash. Qed.
+Print Assumptions c04_double_crash.
+
+Theorem c04_cleanup_steps_sound : forall n w, apply (cleanup_steps n w) w = cleanup n w.
+Proof. exact apply_cleanup_steps. Qed.
+Print Assumptions c04_cleanup_steps_sound.
+
+Example c04_double_crash_nonvacuous :
+  let w := apply (port_create KPub 1 1 1 [Conn 1 1 1 7]) ex_w in
+  length (cleanup_steps 1 w) = 8 /\
+  mem (Tok 1) (crash 5 (cleanup_steps 1 w) w) = true /\ mem (Data 1 1) (crash 5 (cleanup_steps 1 w) w) = false /\
+  cleanup 1 (crash 5 (cleanup_steps 1 w) w) = cleanup 1 w /\ mem (Tok 0) (cleanup 1 w) = true /\ mem (Stat 1) (cleanup 1 w) = true.
+Proof. vm_compute. repeat split; reflexivity. Qed.
+Print Assumptions c04_double_crash_nonvacuous.
